@@ -143,6 +143,22 @@ static std::string synth_kb_schema(const std::string& id, const std::string& edi
          "    - {when: composing, accept: \"Control+j\", send_sequence: \"{Control+s}.{Control+k}\"}\n";
 }
 
+// synth_ascii_express / synth_ascii_fluid: the stock chain order [ascii_composer, key_binder, speller, punctuator, selector,
+// navigator, editor] and segmentors [ascii_segmentor, abc_segmentor, punct_segmentor, fallback_segmentor] over synth_kb_*;
+// ascii_composer/switch_key as in coq/Eng/Oracle.v: synth_ascii_keys (keep in sync).
+static std::string synth_ascii_schema(const std::string& id, const std::string& editor, bool fluid) {
+  std::string y = synth_kb_schema(id, editor, fluid);
+  replace_all(y, "  processors:\n    - key_binder\n", "  processors:\n    - ascii_composer\n    - key_binder\n");
+  replace_all(y, "  segmentors:\n    - abc_segmentor\n", "  segmentors:\n    - ascii_segmentor\n    - abc_segmentor\n");
+  return y + (fluid ? "ascii_composer:\n  good_old_caps_lock: false\n  switch_key:\n    Shift_L: commit_code\n    Shift_R: inline_ascii\n"
+                      "    Control_L: noop\n    Control_R: commit_text\n    Caps_Lock: commit_text\n    Eisu_toggle: inline_ascii\n"
+                    : "ascii_composer:\n  good_old_caps_lock: true\n  switch_key:\n    Shift_L: inline_ascii\n    Shift_R: commit_text\n"
+                      "    Control_L: commit_code\n    Control_R: clear\n    Caps_Lock: clear\n    Eisu_toggle: clear\n");
+}
+
+// the virtual steady clock of gear/ascii_composer.cc (hook, RIME_VERIF_HOOKS): op "tick <ms>" advances it
+namespace rime { extern long long verif_ascii_clock_ms; }
+
 static void prepare(const std::string& shared, const std::string& kind) {
   vh::mkdirs(shared);
   if (kind == "synth") {
@@ -150,6 +166,7 @@ static void prepare(const std::string& shared, const std::string& kind) {
                    "config_version: \"verif\"\nschema_list:\n  - schema: synth_express\n  - schema: synth_fluid\n"
                    "  - schema: synth_punct_express\n  - schema: synth_punct_fluid\n"
                    "  - schema: synth_kb_express\n  - schema: synth_kb_fluid\n"
+                   "  - schema: synth_ascii_express\n  - schema: synth_ascii_fluid\n"
                    "switcher:\n  caption: \"[verif]\"\n  hotkeys: []\nmenu:\n  page_size: 5\n");
     vh::write_file(shared + "/synth_express.schema.yaml", synth_schema("synth_express", "express_editor"));
     vh::write_file(shared + "/synth_fluid.schema.yaml", synth_schema("synth_fluid", "fluid_editor"));
@@ -157,6 +174,8 @@ static void prepare(const std::string& shared, const std::string& kind) {
     vh::write_file(shared + "/synth_punct_fluid.schema.yaml", synth_punct_schema("synth_punct_fluid", "fluid_editor", true));
     vh::write_file(shared + "/synth_kb_express.schema.yaml", synth_kb_schema("synth_kb_express", "express_editor", false));
     vh::write_file(shared + "/synth_kb_fluid.schema.yaml", synth_kb_schema("synth_kb_fluid", "fluid_editor", true));
+    vh::write_file(shared + "/synth_ascii_express.schema.yaml", synth_ascii_schema("synth_ascii_express", "express_editor", false));
+    vh::write_file(shared + "/synth_ascii_fluid.schema.yaml", synth_ascii_schema("synth_ascii_fluid", "fluid_editor", true));
   } else {
     const char* files[] = {"cangjie5.dict.yaml", "cangjie5.schema.yaml", "default.yaml", "essay.txt",
                            "luna_pinyin.dict.yaml", "luna_pinyin.schema.yaml", "symbols.yaml"};
@@ -271,6 +290,7 @@ int main(int argc, char** argv) {
       std::string id;
       is >> id;
       if (sid) api->destroy_session(sid);
+      rime::verif_ascii_clock_ms = 0;   // every history starts at virtual time 0 (the model's init_state)
       sid = api->create_session();
       Bool ok = api->select_schema(sid, id.c_str());
       RIME_STRUCT(RimeStatus, st);
@@ -322,6 +342,10 @@ int main(int argc, char** argv) {
       }
     } else if (op == "getctx" || op == "getinput" || op == "getcaret" || op == "getstatus") {
       // the observation below performs these reads
+    } else if (op == "tick") {
+      long long ms;
+      is >> ms;
+      rime::verif_ascii_clock_ms += ms;
     } else if (op == "opt") {
       std::string name;
       int v;
